@@ -154,6 +154,9 @@ func (e *Engine) bind(ld *Loaded) error {
 			for _, cl := range c.Assumes {
 				bindCl(cl)
 			}
+			for _, cl := range c.OnStore {
+				bindCl(cl)
+			}
 			for _, cl := range c.Ensures {
 				bindCl(cl)
 			}
